@@ -2,6 +2,7 @@
 from __future__ import annotations
 
 import itertools
+import os
 import random
 
 from harness import core, acegen, addrgen as ag, cisco_reader as cr
@@ -262,7 +263,14 @@ def check_history(ca, spec, fresh_check=True):
 
 
 def known_exception(op, ex, a):
-    """exceptions that are the documented answer of the operation (not failures of C17)"""
+    """exceptions that are the documented answer of the operation (not failures of C17), and the listed
+    finding N11 of C02 (AceGroup.platform='nxos' on a multi-entry IOS group raises ValueError), which the model
+    reproduces and C02 reports"""
+    if op == ["platform", "nxos"] and isinstance(ex, ValueError) and getattr(a, "group_by", "") and a.platform in ("ios", "nxos"):
+        import traceback
+        frames = [(os.path.basename(fr.filename), fr.name) for fr in traceback.extract_tb(ex.__traceback__)]
+        if ("ace_group.py", "platform") in frames:
+            return True
     if op[0] == "resequence" and isinstance(ex, ValueError):
         return True        # number range exhausted / refused arguments
     if op[0] == "delete_shadow" and isinstance(ex, TypeError):
